@@ -32,7 +32,7 @@ HARNESS = {"bin": "core"}
 TEMPLATE = os.path.join(common.VERIF, "harness_macro")
 WORK = os.path.join(common.BUILD, "c19")
 
-N_DOCS = {"quick": 300, "thorough": 4000}
+N_DOCS = {"quick": 4000, "thorough": 30000}
 PER_PROGRAM = 400
 
 
@@ -362,7 +362,7 @@ def spell_path(rng, keys):
             segs.append(("q", k))
     # rustc's lexer: an integer followed by `.` and something that does not start an identifier is a float
     # literal (`1.2`, `1."x"`): MacroSpec.path_ok excludes such paths; spell the integer quoted instead
-    for i in range(len(segs) - 1):
+    for i in range(len(segs) - 2, -1, -1):        # right to left: quoting a segment changes what its left neighbour sees
         a, b = segs[i], segs[i + 1]
         if a[0] == "b" and a[1][-1][0] == "n" and not (b[0] == "b" and b[1][0][0] == "i"):
             segs[i] = ("q", keys[i])
@@ -375,6 +375,10 @@ def spell_value(rng, v):
         return ("a", bool(elems) and rng.random() < 0.3, elems)
     if v[0] == "t":
         return ("l", [(spell_path(rng, p), spell_value(rng, e)) for p, e in v[1]])
+    if v[0] == "i" and len(v) == 2:                       # values gen_toml.perturb adds
+        return ("i", "-" if v[1] < 0 else "", str(abs(v[1])).encode())
+    if v[0] == "b":
+        return ("T",) if v[1] else ("F",)
     return v
 
 
@@ -392,20 +396,45 @@ def n_tokens(text):
     return len(re.findall(r'"(?:[^"\\]|\\.)*"|[A-Za-z0-9_.]+|\S', text))
 
 
-def gen_doc(rng, max_tokens=260):
+def loose_statements(rng, tg):
+    """headers, array-of-tables headers and key/values over a tiny key pool in random order (kept only when the
+    reference interpreter calls the result valid): super-tables declared after their sub-tables, sub-tables of
+    array elements, the same names used as table, array and value in different places"""
+    pool = [b"a", b"b", b"c", b"1", b"k-1", b"a b"]
+    out = []
+    for _ in range(rng.randrange(2, 9)):
+        x = rng.random()
+        path = [rng.choice(pool[:rng.choice([2, 3, 6])]) for _ in range(rng.choice([1, 1, 2, 2, 3]))]
+        if x < 0.45:
+            cand = ("hdr", path)
+        elif x < 0.7:
+            cand = ("aot", path)
+        else:
+            cand = ("kv", path[-2:], tg.value(2) if rng.random() < 0.8 else tg.value(1))
+        if G.ref_eval(out + [cand])[0] == "valid":
+            out.append(cand)
+        elif x < 0.45 and len(path) > 1 and G.ref_eval(out + [("hdr", path[:-1])])[0] == "valid":
+            out.append(("hdr", path[:-1]))              # the super-table of something already there
+    return out
+
+
+def gen_doc(rng, max_tokens=260, perturb_p=0.08):
+    """-> (statements, text, claimed valid)"""
     while True:
         tg = MGen(rng, small_keys=rng.random() < 0.25, max_depth=rng.choice([1, 2, 2, 3]))
-        st = tg.statements(tg.tree())
+        st = loose_statements(rng, tg) if rng.random() < 0.3 else tg.statements(tg.tree())
         if not st:
             continue
+        if rng.random() < perturb_p:
+            st = tg.perturb(st)                           # usually one definition-rule breach: correspondence only
         verdict = G.ref_eval(st)[0]
-        if verdict != "valid":
+        if verdict == "undecided":
             continue
         stmts = spell(rng, st)
         text = doc_text(rng, stmts)
         if n_tokens(text) > max_tokens:
             continue
-        return stmts, text
+        return stmts, text, verdict == "valid"
 
 
 # hand-written documents (statements given by their spelling): the shapes named in the property text
@@ -546,7 +575,10 @@ def run_program(texts, tag="p0", timeout=2400):
                 open(p, "wb").write(data)
 
         for rel in ("Cargo.toml", os.path.join(".cargo", "config.toml"), os.path.join("src", "main.rs"), os.path.join("src", "dump.rs")):
-            put(rel, open(os.path.join(TEMPLATE, rel), "rb").read())
+            data = open(os.path.join(TEMPLATE, rel), "rb").read()
+            if rel == "Cargo.toml":                       # the tree under test (VERIF_REPO) instead of the template's /repo
+                data = data.replace(b'"/repo/', b'"' + common.REPO.rstrip("/").encode() + b"/")
+            put(rel, data)
         put("Cargo.lock", open(os.path.join(common.REPO, "Cargo.lock"), "rb").read())
         put(os.path.join("src", "cases.rs"), program(texts).encode("utf-8"))
         rc, out, dt = common.sh(["cargo", "build", "--offline", "--release", "--target-dir", os.path.join(WORK, "target")],
@@ -621,6 +653,7 @@ def observe(cases):
             if not failed:
                 failed = {i: whole for i in range(len(texts))}
         for i, c in enumerate(chunk):
+            c.meta["obs_pid"] = os.getpid()
             if i in failed:
                 c.meta["impl"] = "supported=%s macro=E:compile ref=?" % ("true" if c.meta["supported"] else "false")
                 c.meta["compile_error"] = failed[i][-1500:]
@@ -628,8 +661,12 @@ def observe(cases):
                 c.meta["impl"] = impl_line(c.meta["supported"], obs[i])
 
 
+_STMTS = {}        # text -> statements (for shrinking)
+
+
 def make_case(rng, stmts, kind, supported=True, text=None):
     text = text if text is not None else doc_text(rng, stmts)
+    _STMTS[text] = stmts
     return Case("macro", [ser_doc(stmts)], {"kind": kind, "text": text, "supported": supported})
 
 
@@ -642,11 +679,13 @@ def gen_cases(rng, tier):
     n = N_DOCS.get(tier, 300)
     seen = set()
     while len(cases) < n:
-        stmts, text = gen_doc(rng)
+        stmts, text, valid = gen_doc(rng)
         if text in seen:
             continue
         seen.add(text)
-        cases.append(Case("macro", [ser_doc(stmts)], {"kind": "random", "text": text, "supported": True}))
+        _STMTS[text] = stmts
+        cases.append(Case("macro", [ser_doc(stmts)], {"kind": "random" if valid else "random-invalid", "text": text, "supported": True,
+                                                      "valid": valid}))
     observe(cases)
     return cases
 
@@ -662,7 +701,7 @@ def fields(line):
 
 
 def impl_of(case):
-    if "impl" not in case.meta or case.meta.get("stale"):
+    if "impl" not in case.meta or case.meta.get("obs_pid") != os.getpid():        # a replayed case is observed afresh
         if "text" not in case.meta:
             return None
         observe([case])
@@ -726,6 +765,27 @@ ASSUMPTIONS = [
     "program sets #![recursion_limit] high enough for the tt-muncher",
     "integers in toml!{} are i32 (unsuffixed literal fallback); outside i32 the macro does not compile (positive) or wraps (negative): excluded by macro_supported",
 ]
+
+
+def shrink(case, il, why, _run):
+    """drop statements one at a time while the same kind of failure remains (all candidates of a round in one program)"""
+    stmts = _STMTS.get(case.meta.get("text"))
+    if not stmts:
+        return case, case.meta.get("impl", il), why
+    kind = "compile" if "does not compile" in why else "disagree"
+    cur, cur_why = case, why
+    changed = True
+    while changed and len(stmts) > 1:
+        changed = False
+        cands = [stmts[:i] + stmts[i + 1:] for i in range(len(stmts))]
+        cs = [make_case(random.Random(0), st, "shrunk") for st in cands]
+        observe(cs)
+        for st, c in zip(cands, cs):
+            w = oracle(c, None)
+            if w and (("does not compile" in w) == (kind == "compile")):
+                stmts, cur, cur_why, changed = st, c, w, True
+                break
+    return cur, cur.meta.get("impl", il), cur_why
 
 
 def search(rng, ctx):
